@@ -3,15 +3,16 @@ Path enumerations of `Market._execution` on a one-buy / one-sell book (see SrcMa
 `nf%` computes the pruned paths of the symbolic run of the *current* translated source, `rfl` makes
 the kernel re-check them.  Shape: buy limit, sell market.
 -/
+import PamsLemmas.EvalNf
 import PamsLemmas.SrcMarketDefs
 
 namespace Pams.Src
 open Pams Pams.Py
 set_option maxRecDepth 1000000
 
-theorem exec11_ff_tf : exec11Paths false false true false = nf% (exec11Paths false false true false) := by rfl
-theorem exec11_ft_tf : exec11Paths false true true false = nf% (exec11Paths false true true false) := by rfl
-theorem exec11_tf_tf : exec11Paths true false true false = nf% (exec11Paths true false true false) := by rfl
-theorem exec11_tt_tf : exec11Paths true true true false = nf% (exec11Paths true true true false) := by rfl
+theorem exec11_ff_tf : exec11Paths false false true false = evalnf% (exec11Paths false false true false) := by kernel_rfl
+theorem exec11_ft_tf : exec11Paths false true true false = evalnf% (exec11Paths false true true false) := by kernel_rfl
+theorem exec11_tf_tf : exec11Paths true false true false = evalnf% (exec11Paths true false true false) := by kernel_rfl
+theorem exec11_tt_tf : exec11Paths true true true false = evalnf% (exec11Paths true true true false) := by kernel_rfl
 
 end Pams.Src
